@@ -1005,7 +1005,8 @@ def run(ctx):
     rng = ctx.rng
     ctx.rule = ("a case = one sequence of log calls through the real logger and _ZstdFileHandler, read back by PenlogReader / hr; "
                 "distinct = distinct (call sequence, probe) pairs; non-trivial = the log holds >= 1 record or the probe is a "
-                "navigation on the empty log")
+                "navigation on the empty log; second layer: distinct (log, input files, argument vector, output cut) tuples of hr.main(), "
+                "distinct argument vectors against argparse, distinct foreign JSON objects against parse_json")
     t0 = time.time()
     try:
         part_levels(env, ctx)
